@@ -229,3 +229,65 @@ Proof.
   rewrite app_nil_r in H. rewrite H; [reflexivity | | exact I | exact I].
   unfold fuel_for. pose proof (proj1 sz_expr_bound e). lia.
 Qed.
+
+(* ---------------- sources ---------------- *)
+Lemma tk_expr_head :
+  (forall e, exists t tl, tk_expr e = t :: tl /\ is_ty TTags t = false) /\
+  (forall o, exists t tl, tk_orc o = t :: tl /\ is_ty TTags t = false) /\
+  (forall x, exists t tl, tk_xc x = t :: tl /\ is_ty TTags t = false) /\
+  (forall b, exists t tl, tk_body b = t :: tl /\ is_ty TTags t = false).
+Proof.
+  apply ast_mutind.
+  - intros o IH. exact IH.
+  - intros o (t & tl & E & H) e _. cbn [tk_expr]. rewrite E. cbn [app]. eexists _, _. split; [reflexivity|exact H].
+  - intros x IH. exact IH.
+  - intros x (t & tl & E & H) o _. cbn [tk_orc]. rewrite E. cbn [app]. eexists _, _. split; [reflexivity|exact H].
+  - intros n b (t & tl & E & H). cbn [tk_xc]. destruct n; cbn [app].
+    + eexists _, _. split; reflexivity.
+    + rewrite E. eexists _, _. split; [reflexivity|exact H].
+  - intros c. cbn [tk_body]. unfold tk_cond. destruct (tk_ident_head (c_ident c)) as [tl E]. rewrite E. cbn [app].
+    eexists _, _. split; [reflexivity|]. unfold operand_tok, kw_or, is_ty. cbn [t_ty].
+    destruct (is_keyword_text _); reflexivity.
+  - intros e _. cbn [tk_body]. eexists _, _. split; reflexivity.
+Qed.
+
+Definition wf_source (parse_tags : bytes -> option tagset) (tags_line : tagset -> bytes) (s : source) : Prop :=
+  match s with
+  | SrcTags t => parse_tags (pr_tags tags_line t) = Some t     (* the C08 round trip, for this tag set *)
+  | SrcExpr e => wf_expr e = true
+  end.
+
+Theorem parse_print_source parse_tags tags_line s : wf_source parse_tags tags_line s ->
+  parse_source_tokens parse_tags (tk_source tags_line s) = Some s.
+Proof.
+  intros Hw. unfold parse_source_tokens. destruct s as [t|e]; cbn [tk_source wf_source] in *.
+  - unfold p_source. change (is_ty TTags (Tok TTags (pr_tags tags_line t))) with true. cbv iota.
+    cbn [t_val]. rewrite Hw. reflexivity.
+  - destruct (proj1 tk_expr_head e) as (t & tl & E & Ht).
+    unfold p_source. rewrite E. rewrite Ht. rewrite <- E.
+    pose proof (proj1 rt_expr_all e (fuel_for (tk_expr e)) [] Hw) as H.
+    rewrite app_nil_r in H. rewrite H; [reflexivity | | exact I | exact I].
+    unfold fuel_for. pose proof (proj1 sz_expr_bound e). lia.
+Qed.
+
+(* ---------------- pipes: the stored conditions parse back to S and F ---------------- *)
+Definition wf_pipe (parse_tags : bytes -> option tagset) (tags_line : tagset -> bytes) (p : pipe) : Prop :=
+  match pi_from p with Some s => wf_source parse_tags tags_line s | None => True end /\
+  match pi_where p with Some e => wf_expr e = true | None => True end.
+
+Lemma tk_source_nonempty tags_line s : tk_source tags_line s <> [].
+Proof. destruct s as [t|e]; cbn [tk_source]; [discriminate|]. destruct (proj1 tk_expr_head e) as (t & tl & E & _). rewrite E. discriminate. Qed.
+
+Theorem pipe_conds_reparse parse_tags tags_line p : wf_pipe parse_tags tags_line p ->
+  parse_osource_tokens parse_tags (fst (pipe_conds_tokens tags_line p)) = Some (pi_from p) /\
+  parse_oexpr_tokens (snd (pipe_conds_tokens tags_line p)) = Some (pi_where p).
+Proof.
+  intros [Hs He]. unfold pipe_conds_tokens. cbn [fst snd]. split.
+  - destruct (pi_from p) as [s|]; [|reflexivity].
+    unfold parse_osource_tokens. pose proof (tk_source_nonempty tags_line s) as Hn.
+    destruct (tk_source tags_line s) eqn:E; [contradiction|]. rewrite <- E.
+    rewrite (parse_print_source _ _ _ Hs). reflexivity.
+  - destruct (pi_where p) as [e|]; [|reflexivity].
+    unfold parse_oexpr_tokens. destruct (proj1 tk_expr_head e) as (t & tl & E & _).
+    rewrite E at 1. rewrite (parse_print_expr _ He). reflexivity.
+Qed.
